@@ -4,6 +4,7 @@ CONSTANTS
   MaxTx = 1000000
   MaxWrites = 1000000
   Keys = {}
+  MaxReads = 1000000
 INVARIANTS
   TypeOK
   MutualExclusion
